@@ -4,10 +4,10 @@ EXTENDS PyLiteral
 
 CONSTANTS Kind,        \* "str" | "num"
           FullLen,     \* bodies of 0..FullLen pieces with every prefix and quote kind
-          RepLen       \* bodies of FullLen+1..RepLen pieces with representative prefixes and quotes
+          RepLen,      \* bodies of FullLen+1..RepLen pieces with representative prefixes and quotes:
+          RepPrefixes, \*   indices into LitPrefixes
+          RepQuotes    \*   quote kinds
 
-RepPrefixes == {1, 2, 4, 6, 8, 12}      \* '' u r b br rb
-RepQuotes == {1, 4}
 Bodies(n) == [1..n -> 1..NPieces]
 StrUniverse ==
   UNION { { [kind |-> "str", pf |-> pf, q |-> q, body |-> b, body2 |-> <<>>] : pf \in 1..NLitPrefixes, q \in 1..4, b \in Bodies(n) } : n \in 0..FullLen }
